@@ -464,6 +464,45 @@ def context_facts(eff, cb):
     return out
 
 
+def item_facts(eff, b, terms):
+    """what an iterator chain guarantees about the items it yields, for every `ok(next(CHAIN))` among the given terms: an item that
+    comes out of `.take_while(p)` / `.filter(p)` satisfies p(&item) — the `for x in chain` spelling of what context_facts states for
+    `chain.for_each(|x| ..)`. Facts are written with the item term itself in the place of the predicate's argument."""
+    from .mir import rels_of_bool
+    from .outcomes import _apply_closure
+    out = []
+    seen = set()
+    for t in terms:
+        for x in subterms(deep_strip(t)):
+            if x[0] != 'ok' or x in seen:
+                continue
+            seen.add(x)
+            nx = deep_strip(x[1])
+            if not (nx[0] == 'call' and nx[2] and canon(nx[1]).split("::")[-1] == "next"):
+                continue
+            chain = deep_strip(nx[2][0])
+            for _ in range(8):
+                while chain[0] in ('ref', 'deref'):
+                    chain = deep_strip(chain[1])
+                if chain[0] != 'call' or not chain[2]:
+                    break
+                nm = canon(chain[1]).split("::")[-1]
+                if nm in ("take_while", "filter") and len(chain[2]) == 2:
+                    clo = deep_strip(chain[2][1])
+                    if clo[0] == 'agg':
+                        try:
+                            r = _apply_closure(eff.prog, eff, clo, ('ref', x))
+                        except Exception:
+                            r = None
+                        if r is not None:
+                            out.extend(rels_of_bool(deep_strip(r), True))
+                if nm in _ITEM_PRESERVING or nm in ("into_iter", "by_ref"):
+                    chain = deep_strip(chain[2][0])
+                    continue
+                break
+    return out
+
+
 def facts_in_parent(eff, cb, pos):
     """facts_at(pos) of a closure body rewritten into the defining function's terms, plus the context facts of its chain"""
     out = []
